@@ -283,7 +283,7 @@ Proof.
   assert (Hn2 : 0 < n2 <= max64) by (unfold max64; lia). assert (Hd2 : 0 < d2 <= max64) by (unfold max64; lia).
   destruct (cross_cancel n1 d1 n2 d2) as (Hg1 & Hg2 & P1 & P4 & P3 & P2 & EA & EB & Hab & EG); try lia.
   rewrite EG in *.
-  assert (Hk : 0 < Z.gcd n1 n2 * Z.gcd d2 d1) by nia.
+  assert (Hk : 0 < Z.gcd n1 n2 * Z.gcd d2 d1) by (apply Z.mul_pos_pos; assumption).
   rewrite EA in Ha |- *. rewrite EB in Hb |- *. rewrite !Z.div_mul in * by lia.
   unfold ratio_divide_m. cbn [fst snd].
   destruct (n2 =? 0) eqn:E0; [lia|].
@@ -292,7 +292,8 @@ Proof.
   rewrite !Z.quot_div_nonneg by lia.
   set (a := n1 / Z.gcd n1 n2 * (d2 / Z.gcd d2 d1)) in *.
   set (b := d1 / Z.gcd d2 d1 * (n2 / Z.gcd n1 n2)) in *.
-  assert (Ha0 : 0 < a) by (unfold a; nia). assert (Hb0 : 0 < b) by (unfold b; nia).
+  assert (Ha0 : 0 < a) by (unfold a; apply Z.mul_pos_pos; assumption).
+  assert (Hb0 : 0 < b) by (unfold b; apply Z.mul_pos_pos; assumption).
   rewrite !cx64_ok by (unfold min64; lia). cbn [bind].
   apply ratio_m_normal. unfold period_ok, lim64. unfold max64 in *. lia.
 Qed.
@@ -325,7 +326,7 @@ Proof.
   assert (Hn2 : 0 < n2 <= max64) by (unfold max64; lia). assert (Hd2 : 0 < d2 <= max64) by (unfold max64; lia).
   destruct (cross_cancel n1 d1 n2 d2) as (Hg1 & Hg2 & P1 & P4 & P3 & P2 & EA & EB & Hab & EG); try lia.
   rewrite EG.
-  assert (Hk : 0 < Z.gcd n1 n2 * Z.gcd d2 d1) by nia.
+  assert (Hk : 0 < Z.gcd n1 n2 * Z.gcd d2 d1) by (apply Z.mul_pos_pos; assumption).
   rewrite EA at 1. rewrite EB at 1. rewrite !Z.div_mul by lia.
   unfold period_quotient_integral_m. cbn [pn pd].
   rewrite !gcd_m_spec by lia. cbn [bind].
